@@ -318,6 +318,8 @@ class Generator:
         both(R.r11_for_underscore, log)
         if 'r12' in e.opts:
             both(R.r12_bool_or_assign, set(e.opts['r12'].split(',')), log)
+        if 'r14' in e.opts:
+            both(R.r14_digit_from_bytes, log)
         if 'rename' in e.opts:
             mp = dict(kv.split(':') for kv in e.opts['rename'].split(','))
             both(R.rename_idents, mp, log)
@@ -542,7 +544,8 @@ class Generator:
                             if g is not owned[0]:
                                 skip.add(id(g))
                     else:
-                        merged_stub[id(grp[0])] = merge_stub_headers([g.header_tokens for g in grp])
+                        if not (grp[0].kind == 'const' and grp[0].impl_header is None):
+                            merged_stub[id(grp[0])] = merge_stub_headers([g.header_tokens for g in grp])
                         for g in grp[1:]:
                             skip.add(id(g))
             for it in its:
